@@ -185,6 +185,9 @@ class Source:
     def text(self):
         return ''
 
+    def first_extra(self):
+        return None
+
     @staticmethod
     def from_string(s):
         raise HarnessError('Source.from_string is not expected on the transaction paths')
@@ -216,7 +219,7 @@ STUBS = [
     'compiler.status.get_status, pgsql.common.quote_ident, compiler._get_schema_version, _extract_extensions, ddl.produce_feature_used_metrics, sertypes.NULL_TYPE_ID -> trivial',
     'edgeql.parse_block / Source -> hand-built qlast statement lists (no EdgeQL text)',
     'CompilerState -> std schema tag, config_spec None, state_serializer_factory stub',
-    'edgeql.compiler.preprocess_script, compiler._get_compile_options -> no-op (scripts are only driven up to their rejection)',
+    'edgeql.compiler.preprocess_script, compiler._get_compile_options, sertypes.describe_params -> parameterless stand-ins (the real _extract_params runs on an empty parameter list)',
     'all other imports of compiler.py/dbstate.py -> frozen import-time placeholders (never executed)',
 ]
 
@@ -335,6 +338,7 @@ def load(patches=None):
     import edb.edgeql.compiler as qlcompiler
     qlcompiler.preprocess_script = lambda stmts, schema, options: types.SimpleNamespace(params={}, schema=schema)
     compiler._get_compile_options = lambda ctx, **kw: None
+    sertypes.describe_params = lambda *, schema, params, protocol_version: (b'', uuid.UUID(int=2))
 
     class Req:
         input_language = enums.InputLanguage.EDGEQL
